@@ -16,6 +16,10 @@ def K(v): return {"e": "const", "v": v}
 def Add(l, r): return {"e": "add", "l": l, "r": r}
 def Sub(l, r): return {"e": "sub", "l": l, "r": r}
 def Mul(l, r): return {"e": "mul", "l": l, "r": r}
+def AGet(cell): return {"e": "aget", "n": cell[0], "i": int(cell[1]), "cell": cell} if len(cell) == 2 else {"e": "aget", "n": "m", "i": int(cell[1]), "j": int(cell[2]), "cell": cell}
+def ASet(cell, e): return {"s": "aset", "n": "a", "i": int(cell[1]), "cell": cell, "secret": False, "cells": [], "e": e} if len(cell) == 2 else \
+    {"s": "aset", "n": "m", "i": int(cell[1]), "j": int(cell[2]), "cell": cell, "secret": False, "cells": [], "e": e}
+def ASetV(var, e): return {"s": "aset", "n": "a", "i": V(var), "cell": "", "secret": True, "cells": ["a0", "a1", "a2"], "e": e}
 def Div(l, r): return {"e": "div", "l": l, "r": r}
 def C(op, l, r): return {"c": op, "l": l, "r": r}
 def CV(n): return {"c": "var", "n": n}
@@ -39,6 +43,13 @@ def templates(tier):
     # nesting
     T.append(("nested", [If([(conds[0], [If([(conds[1], [Asg("z", K(1))])], [Asg("z", K(2))]), Asg("y", Add(V("z"), K(1)))])], [If([(conds[3], [Asg("y", K(9))])])])]))
     T.append(("nested2", [If([(conds[3], [Asg("x", Add(V("x"), K(1))), If([(C("gt", V("x"), V("y")), [Asg("y", V("x"))])])])]), Asg("z", Add(V("y"), V("x")))]))
+    # containers held in tracked variables and updated IN PLACE inside branches and loops (an Array, a list of lists)
+    T.append(("arrif", [If([(CV("f"), [ASet("a1", K(9)), ASet("a0", Add(AGet("a0"), V("x")))])], [ASet("a2", V("y"))])]))
+    T.append(("arrifsecret", [If([(C("lt", V("x"), V("y")), [ASetV("z", K(7))])])]))
+    T.append(("arrfor", [For("i", V("z"), 3, [ASetV("i", Add(V("x"), V("i")))])]))
+    T.append(("arrnested", [If([(CV("f"), [If([(C("eq", V("x"), K(1)), [ASet("a0", K(5))])], [ASet("a1", K(6))])])])]))
+    T.append(("matif", [If([(CV("f"), [ASet("m01", K(9))])], [ASet("m10", Add(AGet("m11"), K(1)))])]))
+    T.append(("matwhile", [While(C("lt", V("x"), K(2)), 2, [ASet("m00", Add(AGet("m00"), K(1))), Asg("x", Add(V("x"), K(1)))])]))
     # value-dependent operations in branches that may be dead: x is halved only when it is even (y = x mod 2 is an input);
     # in the branch that is NOT taken the division is inexact and the comparison operands may be out of range
     even = C("eq", V("y"), K(0))
@@ -75,6 +86,10 @@ def inputs_for(name, tier):
     ys = [-1, 0, 2] if tier == "quick" else [-2, -1, 0, 1, 2, 3]
     zs = [0, 1, 2] if tier == "quick" else [-1, 0, 1, 2, 3]
     fs = [0, 1]
+    if name.startswith(("arr", "mat")):
+        for x, y, z, f in itertools.product([0, 1, 2], [0, 2], [0, 1, 2], fs):
+            yield {"x": x, "y": y, "z": z, "f": f}
+        return
     if name.startswith("div"):
         xs = [v for v in xs if v >= 0]
         ys = [0, 1]
@@ -146,24 +161,35 @@ def mechanism_part(run, tier):
         run.extra["branching_model_drift_chunks"] = nd
 
 
-def main(tier):
-    run = common.Run("C09", tier)
-    mechanism_part(run, tier)
-    if run.violations:
-        return run.finish(RULE)
-    cfg = {"P": 4099, "bitlength": 5, "resolution": 1}
+CF_CFG = {"P": 4099, "bitlength": 5, "resolution": 1}
+
+
+def cf_programs(tier, select=None):
+    """op-record programs (one `cf` step each) for every template x input vector; select(name) filters templates"""
     progs = []
     for ti, (name, prog) in enumerate(templates(tier)):
+        if select and not select(name):
+            continue
         name = "%s.%d" % (name, ti)
         for k, inp in enumerate(inputs_for(name, tier)):
-            if not name.startswith(("elif", "nested", "if", "seq", "div")) and inp["f"] == 1 and name != "iffor":
+            if not name.startswith(("elif", "nested", "if", "seq", "div", "arr", "mat")) and inp["f"] == 1 and name != "iffor":
                 continue
             for fty in ("int", "bool") if any(t in name for t in ("if", "elif", "nested")) and k % 3 == 0 else ("int",):
                 spec = {n: {"v": v, "ty": "int"} for n, v in inp.items()}
                 spec["f"]["ty"] = fty
-                progs.append({"id": "%s/%d/%s" % (name, k, fty), "ign": False, "meta": {"name": name, "inputs": inp, "prog": prog, "fty": fty},
+                inp2 = dict(inp)
+                if name.startswith("arr"):
+                    spec["a"] = {"v": [1, 2, 3], "ty": "array"}
+                    inp2.update({"a0": 1, "a1": 2, "a2": 3})
+                if name.startswith("mat"):
+                    spec["m"] = {"v": [[1, 2], [3, 4]], "ty": "matrix"}
+                    inp2.update({"m00": 1, "m01": 2, "m10": 3, "m11": 4})
+                progs.append({"id": "%s/%d/%s" % (name, k, fty), "ign": False, "meta": {"name": name, "inputs": inp2, "prog": prog, "fty": fty},
                               "steps": [{"op": "cf", "prog": prog, "inputs": spec, "tag": "main"}]})
-    traces = common.run_programs(cfg, progs)
+    return progs
+
+
+def cf_runs(progs, traces):
     runs = []
     for p, t in zip(progs, traces):
         e = [x for x in t["events"] if x["op"] == "cf"][-1]
@@ -173,6 +199,19 @@ def main(tier):
             for n, leaf in zip(names, e["res"]):
                 final[n] = leaf["v"]
         runs.append({"id": p["id"], "prog": p["meta"]["prog"], "inputs": p["meta"]["inputs"], "out": e["out"], "exc": e["exc"], "final": final})
+    return runs
+
+
+def main(tier):
+    run = common.Run("C09", tier)
+    mechanism_part(run, tier)
+    if run.violations:
+        return run.finish(RULE)
+    cfg = CF_CFG
+    progs = cf_programs(tier)
+    traces = common.run_programs(cfg, progs)
+    runs = cf_runs(progs, traces)
+    for p in progs:
         run.nontrivial.add(json.dumps(p["meta"]["prog"]))
     run.evaluations += len(runs)
     run.samples = [{"program": runs[0]["prog"], "inputs": runs[0]["inputs"], "final": runs[0]["final"]}]
